@@ -678,8 +678,6 @@ def judge(acc, sc, run, tag):
                 continue
             full = 1 if a["state"] < 2 else 0
             v, wit = acc.ask("%s.v%d" % (tag, w), (W["init_full"], W["init_val"]), (full, a["data"]), H[w])
-            if v == "U":        # fuel exhausted: once more with ten times the fuel (the verdicts A and R do not depend on the fuel)
-                v, wit = acc.ask("%s.v%d.more" % (tag, w), (W["init_full"], W["init_val"]), (full, a["data"]), H[w], fuel=10 * FUEL)
             if v == "R":
                 reasons.append(LIN_TXT % (w, len(H[w]), full, a["data"]))
             elif v == "U":
